@@ -2,7 +2,7 @@
 import os
 from ..facts import Program
 from ..run import Check, AnalysisBroken
-from ..rules import r5_grow, expand, r9_sibling
+from ..rules import r5_grow, expand, r9_sibling, misc, r6_wspace
 from . import _drv
 
 R9_UNITS = ['memory.c', 'gstrf.c', 'gsitrf.c', 'column_dfs.c', 'snode_dfs.c', 'copy_to_ucol.c', 'column_bmod.c', 'snode_bmod.c', 'panel_bmod.c', 'pruneL.c']
@@ -14,7 +14,7 @@ def run(tier):
     chk.explanation = (
         'R5.b: forward dataflow over the CFG of every routine that can reach ?LUMemXpand (directly or through callees, by a may-expand '
         'summary): after a call that may expand memory type T, every local alias of Glu->{lusup,ucol,lsub,usub} of a type at or behind T '
-        '(layout order lusup < ucol < lsub < usub inside a caller workspace) must be re-read from Glu before its next use. R5.a: every '
+        '(layout order lusup < ucol < lsub < usub inside a caller workspace) must be re-read from Glu before its next use; likewise a local copy of a capacity (Glu->nzlumax / nzumax / nzlmax) is stale after a call that may raise it, unless it was passed as &maxlen to ?LUMemXpand. R6: the workspace stack invariant used = top1 + size - top2 holds across ?expand / ?LUWorkInit / ?LUWorkFree. Mirror rule: locals named after GlobalLU_t fields are bound to those fields only. R5.a: every '
         'expansion call is under a test against the capacity it enlarges, post-checks are `count >= cap`, pre-checks `need > cap` in a '
         'loop (?expand may grant less than asked), the result is tested and returned. Structure of ?expand: the moved block starts at '
         'expanders[type+1].mem and Glu / expanders of every type behind the grown one advance by the same `extra`; under malloc the old '
@@ -32,6 +32,9 @@ def run(tier):
         for p in _drv.PRECS:
             expand.run(chk, 'C07.D3', prog, p, cfgname)
         expand.bcopy_rule(chk, 'C07.D3', prog, cfgname)
+        misc.glu_mirror_rule(chk, 'C07.mirror', prog, cfgname, floor=500)
+        if r6_wspace.run(chk, 'R6', prog, cfgname) < 32:
+            raise AnalysisBroken('C07: workspace allocator routines not found')
         if cfgname == 'tested':
             r9_sibling.run(chk, prog, 'C07.D4', {p + u for p in 'dz' for u in R9_UNITS} | set(R9_ILU), cfgname)
     return chk.finish()
